@@ -10,7 +10,7 @@ CHECK = dict(
     floors=dict(quick=dict(evaluations=20, events=20000, distinct=8, cov={'joins': 500, 'self_migrations': 100, 'other_migrations': 5, 'stack_frees': 500, 'slices_on_another_vcpu_than_creator': 100}),
                 thorough=dict(evaluations=150, events=400000, distinct=40, cov={'joins': 10000, 'self_migrations': 2000, 'C_STEAL_RUNQ': 1, 'pool_tasks': 100, 'joins_from_another_vcpu': 100})),
     assumptions=['x86-TSO hardware; weaker orderings only through TSan', 'thread pools are used from the vCPU that owns them'],
-    technique='runtime monitoring: per-thread run/active/done/join ledger kept by the entry functions, recording StackAllocator installed through the public API, thread-count and stuck-detector checks, under ASan+UBSan / TSan / plain with stall points in steal/migrate/die/join and CPU shapes',
+    technique='runtime monitoring: per-thread run/active/done/join ledger kept by the entry functions, recording StackAllocator installed through the public API, thread-count and stuck-detector checks, under ASan+UBSan / TSan / plain with stall points in steal/migrate/die/join and CPU shapes; plus a steal-during-switch probe (suspension points that know their sequence number, stall point between run-queue unlock and context save), the in-library sleep-heap walker (a registered thread belongs to the heap\'s vCPU) and a small pooled-stack trim threshold',
     level_text='Held on the seeded executions actually run: every created thread entered its entry function exactly once and finished, no thread resumed while another vCPU was executing it or inside a '
                'pause-work-stealing section on another vCPU, every join returned once, after the entry function returned, with its value, every stack was released exactly once and not before the thread '
                'finished (joinable: not before join was called), and each vCPU\'s thread count returned to its initial value. Not a proof over all schedules.',
